@@ -220,6 +220,9 @@ type c13Case struct {
 	ppub     int // 0 accept 1 error 2 panic
 	ppubSpec *errSpec
 	metaKind int
+	// the consumed message's UUID: 0 unique (= the case id), 1 empty (NewMessage("", ...) is legal),
+	// 2 a UUID shared by several messages of the group (UUIDs need not be unique)
+	uuidKind int
 	// state of the message's context: 0 live; 1 already cancelled when delivered; 2 deadline already
 	// exceeded when delivered; 3 cancelled by the handler (SetContext of a cancelled child);
 	// 4 cancelled from outside while the handler runs; 5 its deadline passes while the handler runs
@@ -255,6 +258,7 @@ type c13Group struct {
 	place   int
 	cases   []*c13Case
 	byID    map[string]*c13Case
+	byPtr   map[*message.Message]*c13Case // attribution never relies on the UUID
 
 	mu      sync.Mutex
 	byGid   map[int64]*c13Case
@@ -514,7 +518,7 @@ func (c *c13Case) outIDs2(msgs []*message.Message) []int { // caller holds c.mu
 
 func (g *c13Group) recorderMw(h message.HandlerFunc) message.HandlerFunc {
 	return func(msg *message.Message) ([]*message.Message, error) {
-		c := g.byID[msg.UUID]
+		c := g.byPtr[msg]
 		if c == nil {
 			g.mu.Lock()
 			g.stray = append(g.stray, "recorder:"+msg.UUID)
@@ -615,7 +619,7 @@ func (g *c13Group) makeMiddleware(pp message.Publisher) (message.HandlerMiddlewa
 func (g *c13Group) prepare(c *c13Case) {
 	c.produced = map[int]*message.Message{}
 	c.routerDone = make(chan struct{})
-	c.msg = message.NewMessage(c.ID, c.payload)
+	c.msg = message.NewMessage([]string{c.ID, "", "shared-uuid"}[c.uuidKind], c.payload)
 	switch c.ctxKind {
 	case 1:
 		c.ctx, c.cancel = context.WithCancel(context.Background())
@@ -710,6 +714,7 @@ func (g *c13Group) prepare(c *c13Case) {
 		"mode": map[bool]string{true: "inside a Router", false: "middleware called directly"}[g.router], "poison_topic": g.topic,
 		"filter": g.filter.String(), "poison_publisher": c.PP[0], "handler": c.h, "handler_error": es,
 		"handler_outcome": []string{"returns", "fails", "panics"}[c.outKind], "outs": outs, "acts": c.acts,
+		"uuid": []string{"unique", "empty", "shared by several messages"}[c.uuidKind],
 		"message_context": []string{"live", "already cancelled at delivery", "deadline already exceeded at delivery", "cancelled by the handler", "cancelled from outside while the handler runs", "deadline passes while the handler runs"}[c.ctxKind],
 		"pre_settle": []string{"none", "ack", "nack"}[c.Pre], "metadata": []string{"nil map", "empty", "{a:1}", "already poisoned (all four keys + z:\"\")", "{reason_poisoned:\"\", b:2}", "{\"\":..., topic_poisoned:in0}"}[c.metaKind],
 		"payload_len": len(c.payload), "router_publisher": []string{"accept", "error", "panic"}[c.PB],
@@ -720,11 +725,12 @@ func (g *c13Group) prepare(c *c13Case) {
 var c13Abort bool
 
 func (g *c13Group) run(rt *hookrt.Runtime) error {
-	g.byID, g.byGid = map[string]*c13Case{}, map[int64]*c13Case{}
+	g.byID, g.byGid, g.byPtr = map[string]*c13Case{}, map[int64]*c13Case{}, map[*message.Message]*c13Case{}
 	for _, c := range g.cases {
 		c.group = g
 		g.byID[c.ID] = c
 		g.prepare(c)
+		g.byPtr[c.msg] = c
 	}
 	var ppub message.Publisher
 	if !g.ppubNil {
@@ -751,14 +757,15 @@ func (g *c13Group) run(rt *hookrt.Runtime) error {
 			return true
 		}
 		if point == "message.ack.unlock" || point == "message.nack.unlock" {
-			if len(keys) > 0 {
-				if c, ok := g.byID[keys[0]]; ok {
-					c.mu.Lock()
-					pre := c.inPre
-					c.mu.Unlock()
-					if !pre {
-						c.doneOnce.Do(func() { close(c.routerDone) })
-					}
+			g.mu.Lock()
+			c := g.byGid[c13gid()] // the settle call runs on the goroutine that handles the message
+			g.mu.Unlock()
+			if c != nil {
+				c.mu.Lock()
+				pre := c.inPre
+				c.mu.Unlock()
+				if !pre {
+					c.doneOnce.Do(func() { close(c.routerDone) })
 				}
 			}
 			return false
@@ -767,10 +774,10 @@ func (g *c13Group) run(rt *hookrt.Runtime) error {
 		if !ack && point != "message.nack.locked" {
 			return strings.HasPrefix(point, "router.handle.")
 		}
-		if len(keys) == 0 {
-			return false
-		}
-		if c, ok := g.byID[keys[0]]; ok {
+		g.mu.Lock()
+		c := g.byGid[c13gid()]
+		g.mu.Unlock()
+		if c != nil {
 			c.mu.Lock()
 			pre := c.inPre
 			c.mu.Unlock()
@@ -952,6 +959,7 @@ func c13Generate(rng *rand.Rand, tier string) []*c13Group {
 		c.Pre = []int{0, 0, 0, 1, 2}[pick(5)]
 		c.acts = c13Acts[pick(len(c13Acts))]
 		c.metaKind = []int{0, 1, 2, 3, 3, 4, 5, 2}[pick(8)]
+		c.uuidKind = []int{0, 0, 0, 0, 0, 1, 2, 2}[pick(8)]
 		c.ctxKind = []int{0, 0, 0, 0, 1, 2, 3, 4, 5, 4}[pick(10)]
 		c.payload = c13Payloads[pick(len(c13Payloads))]
 		c.PB = []int{0, 0, 1, 2}[pick(4)]
@@ -1000,6 +1008,17 @@ func c13Generate(rng *rand.Rand, tier string) []*c13Group {
 				for pp := 0; pp < 3; pp++ {
 					c := newCase(g)
 					c.metaKind, c.ppub, c.Pre = mk, pp, 0
+					fix(g, c)
+				}
+			}
+			// boundary UUIDs (empty; shared by several messages) with a failing handler x every poison publisher behaviour
+			for _, uk := range []int{1, 2, 2} {
+				for pp := 0; pp < 3; pp++ {
+					c := newCase(g)
+					c.uuidKind, c.ppub, c.Pre = uk, pp, 0
+					if c.metaKind == 0 {
+						c.metaKind = 1
+					}
 					fix(g, c)
 				}
 			}
